@@ -2369,6 +2369,13 @@ func (c *Conn) notify(ctx context.Context, level alert.Level, desc alert.Descrip
 
 	// Only protected records carry a connection ID (RFC 9146 Section 3).
 	encrypt := c.isHandshakeCompletedSuccessfully()
+	if !encrypt && common.LocalVersion.Equal(protocol.Version1_3) &&
+		common.LocalEpoch() >= dtlsflight13.EpochHandshake {
+		// DTLS 1.3 protects everything after the ServerHello: the peer
+		// cannot read an alert sent in the clear under a protected epoch.
+		_, err := c.writeTrafficGeneration(common.LocalEpoch())
+		encrypt = err == nil
+	}
 
 	return c.writePackets(ctx, []*dtlsflight.Packet{
 		{
